@@ -569,8 +569,17 @@ def make_workbook_case(seed, i):
     way = MWAYS[i % len(MWAYS)]
     if way == 'xlsx' and i % 16 >= 8:
         way = 'dict'
+    # a defined name for a volatile cell, used by a fresh dependent
+    vb, vs, vc, vr = chosen[0]
+    desc['names']['VOLNAME'] = ['cell', vb, vs, vc, vr]
+    sheet = desc['books'][vb]['sheets'][vs]['cells']
+    sheet['M1'] = {'f': ['bin', '*', ['name', 'VOLNAME'], ['lit', 2.0]]}
+    sheet['M2'] = {'f': ['bin', '-', ['cell', vb, vs, 13, 1], ['name', 'VOLNAME']]}
+    down = sorted(wbrun.downstream(desc, chosen) - set(chosen))
+    down = [k for k in down if k in {tuple(x) for x in wbrun.formula_cells(desc)}]
+    restrict = [list(k) for k in rng.sample(down, min(len(down), 3))]
     return {'kind': 'workbook', 'id': i, 'desc': desc, 'vols': vols, 'way': way,
-            'inputs': inputs,
+            'inputs': inputs, 'restrict': restrict,
             'args': [[float(rng.randint(-5, 20)) for _ in inputs] for _ in range(4)],
             'epochs': 4, 'tick': 1 if i % 4 == 0 else 0}
 
@@ -653,6 +662,19 @@ def check_workbook_case(case, ctx):
                 observed = wbrun.observed_outputs(desc, res, out_keys, out_ids)
                 ov = {k: xl.canon(a) for k, a in zip(in_keys, args)}
                 judged = set(out_keys)
+            elif e == 2 and case.get('restrict'):
+                # restricted outputs: only the requested nodes are returned
+                r_keys = vol_keys + [tuple(k) for k in case['restrict']]
+                r_ids = [wbrun.node_key(desc, k) for k in r_keys]
+                if all(n in m.dsp.nodes for n in r_ids):
+                    sol = m.calculate(outputs=r_ids)
+                    observed = wbrun.observed_outputs(desc, sol, r_keys, r_ids)
+                    judged = set(r_keys)
+                    ctx.count('monitor.restricted-output-epochs')
+                else:
+                    sol = m.calculate()
+                    observed = wbrun.solution_cells(desc, sol)
+                    judged = None
             else:
                 sol = m.calculate()
                 observed = wbrun.solution_cells(desc, sol)
@@ -796,7 +818,8 @@ def finalize(agg, tier):
               ('monitor.workbook-epochs', 250), ('monitor.consistency-cells', 2000),
               ('probe.rand-calls', 1000), ('probe.clock-reads', 500),
               ('fresh.formula.primitive-seen', 800), ('fresh.rb.varies', 50),
-              ('edge.in-range', 150), ('monitor.rb-boundary-epochs', 1000)]
+              ('edge.in-range', 150), ('monitor.rb-boundary-epochs', 1000),
+              ('monitor.restricted-output-epochs', 20)]
     for k, floor in floors:
         if c.get(k, 0) < floor:
             inc.append('monitor %s saw %d events (< %d)' % (k, c.get(k, 0), floor))
